@@ -379,6 +379,9 @@ class Echo:
     def on_request(self, net: netsim.Net, sc: netsim.ServerConn, req: wire.Request) -> None:
         host = (wire.header_get(req.headers, b"host") or [b"?"])[0].decode()
         t = req.target.decode()
+        if t.startswith("/fail"):
+            sc.reset()
+            return
         if t.startswith("/redir-to-"):
             sc.write(wire.build_response(302, "Found", headers=[("Location", ORIGINS[int(t[len("/redir-to-")])] + "/t-after")], body=b""))
             return
@@ -400,7 +403,7 @@ def run_manager_schedule(cfg: dict[str, typing.Any], policy: tuple[typing.Any, .
     net.__enter__()
     out: dict[str, typing.Any] = {}
     try:
-        pm = urllib3.PoolManager(num_pools=cfg["num_pools"])
+        pm = urllib3.PoolManager(num_pools=cfg["num_pools"], maxsize=cfg.get("maxsize", 1))
         lock = sched.SchedRLock()
         pm.pools.lock = lock
         clock = [0]
@@ -453,6 +456,13 @@ def run_manager_schedule(cfg: dict[str, typing.Any], policy: tuple[typing.Any, .
                         elif kind == "request":
                             r = pm.request("GET", ORIGINS[op[1]] + f"/t{ti}")
                             res.append(("request", op[1], r.data.decode("latin-1")))
+                        elif kind == "request-fail":
+                            # the server resets the connection instead of answering: the request's slot goes back empty
+                            try:
+                                pm.request("GET", ORIGINS[op[1]] + f"/fail{ti}", retries=False)
+                                res.append(("exc", kind, "request to a resetting server succeeded"))
+                            except urllib3.exceptions.HTTPError:
+                                res.append(("failed-as-scripted", op[1], ""))
                         elif kind == "redirected":
                             # the manager follows a redirect from origin op[1] to origin op[2] (it asks the first pool
                             # whether the target is the same host)
@@ -600,15 +610,81 @@ def manager_configs() -> list[dict[str, typing.Any]]:
             {"num_pools": num_pools, "threads": [[["stream-begin", 0], ["request", 1]], [["request", 2], ["clear"], ["from_url", 0]]]},
             {"num_pools": num_pools, "threads": [[["from_url", 0], ["clear"], ["from_url", 0]], [["from_url", 0], ["request", 0], ["len"]]]},
             {"num_pools": num_pools, "threads": [[["stream-begin", 0], ["stream-begin", 1]], [["stream-begin", 2], ["from_url", 0], ["len"]]]},
+            {"num_pools": num_pools, "maxsize": 2, "threads": [[["request", 0], ["request", 1]], [["request-fail", 0], ["len"]]]},
+            {"num_pools": num_pools, "maxsize": 2, "threads": [[["request", 0]], [["request-fail", 0]], [["request", 0], ["clear"]]]},
             {"num_pools": num_pools, "threads": [[["redirected", 0, 1], ["request", 2]], [["pool-urlopen", 1], ["request", 0], ["len"]]]},
             {"num_pools": num_pools, "threads": [[["redirected", 0, 1], ["redirected", 1, 2], ["clear"]], [["pool-urlopen", 2], ["request", 1]]]},
         ]
     return out
 
 
+class ShapeServer:
+    """'/cut…' is answered with a body that stops half way (then the server closes); anything else normally."""
+
+    def on_request(self, net: netsim.Net, sc: netsim.ServerConn, req: wire.Request) -> None:
+        if req.target.startswith(b"/cut"):
+            full = wire.build_response(200, body=b"x" * 200)
+            sc.write(full[: len(full) - 100])
+            sc.close()
+        else:
+            sc.write(wire.build_response(200, body=b"ok-" + req.target))
+
+
+def run_queue_shapes(ctx: Ctx, rec: Recorder) -> None:
+    """Pools of 2-3 slots whose queue ends up in every mix of live connections and empty slots (overlapping streamed
+    requests finished, failed or abandoned in every order); then the pool is evicted / cleared / closed and everything
+    referencing it is dropped: no socket of it may stay open."""
+    import urllib3
+
+    plans = []
+    for maxsize in (2, 3):
+        for ends in itertools.product(("finish", "fail", "close"), repeat=maxsize):
+            for order in itertools.permutations(range(maxsize)):
+                for how in ("evict", "clear", "pool-close"):
+                    plans.append((maxsize, ends, order, how))
+    for i, (maxsize, ends, order, how) in enumerate(plans):
+        if not ctx.mine(i):
+            continue
+        case = {"mode": "queue-shape", "maxsize": maxsize, "ends": list(ends), "order": list(order), "how": how}
+        rec.case(["queue-shape", maxsize, ends, order, how])
+        rec.mon("queue_shape_sweep")
+        with netsim.Net(ShapeServer()) as net:
+            pm = urllib3.PoolManager(num_pools=1, maxsize=maxsize, retries=False)
+            streams = []
+            for k, end in enumerate(ends):
+                streams.append(pm.request("GET", "http://o1.test/" + ("cut" if end == "fail" else "ok") + str(k), preload_content=False))
+            for k in order:
+                r = streams[k]
+                try:
+                    if ends[k] == "close":
+                        r.close()
+                    else:
+                        r.read()
+                        r.release_conn()
+                except urllib3.exceptions.HTTPError:
+                    r.release_conn()
+            pool = pm.connection_from_url("http://o1.test/")
+            shape = [c is not None for c in list(pool.pool.queue)] if pool.pool is not None else None
+            rec.seen("queue_shapes", repr(shape))
+            if how == "evict":
+                pm.request("GET", "http://o2.test/other")
+            elif how == "clear":
+                pm.clear()
+            else:
+                pool.close()
+            own = {st.index for st in net.states if st.dial["host"] == "o1.test"}
+            del pool, streams, r
+            gc.collect()
+            left = [st.index for st in net.open_states() if st.index in own]
+            if left:
+                rec.fail(case, "evicted-pool-socket-leaked", {"sockets": left, "queue_shape": shape, "how": how}, f"after {how} and dropping every reference, sockets {left} of the pool are still open (queue was {shape})")
+            pm.clear()
+
+
 def run_shard(ctx: Ctx, rec: Recorder) -> None:
     import random
 
+    run_queue_shapes(ctx, rec)
     run_sequential(ctx, rec)
     # (ii) container under the scheduler
     ccfgs = container_configs()
